@@ -441,6 +441,7 @@ enum { NTHREADS = 16 };
 static pthread_barrier_t bar_start, bar_end;
 static volatile int conc_stop;
 static volatile long conc_mismatches;
+static volatile long conc_method_lookups;
 static int conc_types[12]; static int nconc_types;
 
 static void* conc_worker(void* arg) {
@@ -452,7 +453,24 @@ static void* conc_worker(void* arg) {
       var type = TYPES[conc_types[(i + me) % nconc_types]];
       for (int c = 0; c < NCLASSES; c++) {
         var cls = *CLASSES[(c + (int)me * 3) % NCLASSES].cls;
-        if (type_instance(type, cls) != oracle_instance(type, cls)) { __sync_fetch_and_add(&conc_mismatches, 1); }
+        var want = oracle_instance(type, cls);
+        if (type_instance(type, cls) != want) { __sync_fetch_and_add(&conc_mismatches, 1); }
+        if (type_implements(type, cls) != (want != NULL)) { __sync_fetch_and_add(&conc_mismatches, 1); }
+        if (type_implements_method_at_offset(type, cls, 0) != (want != NULL && ((var*)want)[0] != NULL)) { __sync_fetch_and_add(&conc_mismatches, 1); }
+      }
+    }
+    /* then the checked method lookups, warm, many in a row: every thread keeps asking for ITS OWN (type, class) pairs
+       while the others ask for theirs (anything memoised per process rather than per type shows up here) */
+    for (int rep = 0; rep < 40; rep++) {
+      for (int i = 0; i < nconc_types; i++) {
+        var type = TYPES[conc_types[(i + me) % nconc_types]];
+        for (int c = 0; c < 6; c++) {
+          var cls = *CLASSES[(c * 5 + (int)me) % NCLASSES].cls;
+          var want = oracle_instance(type, cls);
+          if (want == NULL || ((var*)want)[0] == NULL) { continue; }       /* a failing lookup raises: not from a raw thread */
+          if (type_method_at_offset(type, cls, 0, "member") != want) { __sync_fetch_and_add(&conc_mismatches, 1); }
+          __sync_fetch_and_add(&conc_method_lookups, 1);
+        }
       }
     }
     pthread_barrier_wait(&bar_end);
@@ -478,6 +496,7 @@ static void concurrent_cold_lookups(vh_rng* r, int trials) {
   for (int i = 0; i < NTHREADS; i++) { pthread_join(th[i], NULL); }
   pthread_barrier_destroy(&bar_start); pthread_barrier_destroy(&bar_end);
   vh_evals(trials);
+  vh_count_n("concurrent_warm_method_lookups", (uint64_t)conc_method_lookups); conc_method_lookups = 0;
   if (conc_mismatches) { vh_violation(K("concurrent:wrong-instance-from-a-cold-cache"), "%ld lookups from 16 threads against cold caches returned the wrong instance", conc_mismatches); conc_mismatches = 0; }
 }
 
